@@ -470,6 +470,26 @@ def cases(tier):
                 out.append(["intvar", sig, dim, rs[0], "one", [], list(bs), RM])
         if bs and len(rs) == 2:
             out.append(["intvar", sig, dim, rs[0], "one", [], list(bs), [bs[0]]])
+        # mixture measures whose reduced set mixes the real variable(s) with integer inputs: inputs shared by the
+        # weights and the Gaussian, inputs only the Gaussian has, both operand orders, and lazily reduced mixtures
+        if bs and len(rs) <= (3 if thorough else 2):
+            if len(rs) == 1:
+                lsets = [list(bs)] + ([[bs[0]], [bs[1]]] if len(bs) == 2 else [])
+                orders, scopes = ["gl", "lg"], ["one"]
+                rms = [[]] + list(_subsets(bs))
+            else:
+                lsets = [list(bs)] + ([[bs[1]]] if thorough and len(bs) == 2 else [])
+                orders, scopes = (["gl", "lg"] if thorough else ["gl"]), ["one", "all"]
+                rms = [[], [bs[0]]] + ([[bs[1]]] if thorough and len(bs) == 2 else [])
+            for L in lsets:
+                for RM in rms:
+                    rest = [n for n in bs if n not in RM]
+                    for RI in _subsets(rest, 0):
+                        if not RI and len(rs) == 1 and L == list(bs):
+                            continue  # enumerated above
+                        for scope in scopes:
+                            for k, order in enumerate(orders):
+                                out.append(["intvar", sig, dim + k, rs[0], scope, RI, L, RM, order])
         if dim >= 2 and len(rs) == 1:
             out.append(["neg", sig, dim - 1, "intvar", [rs[0]], []])
         # -- Integrate(g, g2)
@@ -578,7 +598,7 @@ VKEYS = {
     "lognorm": ("kind", "rank_vs_dim", "order_class"),
     "plate": ("kind", "order_class", "then_marginalise_any"),
     "mix": ("kind", "logits_class", "reduced_reals"),
-    "intvar": ("kind", "scope", "measure_class", "measure_reduced_ints"),
+    "intvar": ("kind", "scope", "measure_class", "measure_reduced_ints", "reduces_shared_int", "reduces_gaussian_only_int"),
     "intgauss": ("kind", "negated", "integrand_batch"),
     "moment": ("kind", "reduced_reals_any"),
     "contract": ("kind", "operands", "second_batch", "reduced_reals"),
@@ -786,7 +806,8 @@ def plan_mix(case, seed):
 
 
 def plan_intvar(case, seed):
-    _, sig, rank, target, scope, RI, L, RM = case
+    _, sig, rank, target, scope, RI, L, RM = case[:8]
+    order = case[8] if len(case) > 8 else "gl"
     pl = _base(case, seed)
     rs = [n for n, _ in reals_of(sig)]
     shapes = dict(reals_of(sig))
@@ -818,7 +839,7 @@ def plan_intvar(case, seed):
     pl.bsizes = [s for n, s in zip(pl.bnames, pl.bsizes) if n not in RI and n not in RM]
     pl.bnames = [n for n in pl.bnames if n not in RI and n not in RM]
     pl.setup += lcode
-    pl.setup += "m = g\n" if L is None else "m = g + logits\n"
+    pl.setup += "m = g\n" if L is None else ("m = g + logits\n" if order == "gl" else "m = logits + g\n")
     if RM:  # a lazily reduced mixture: Contraction(logaddexp, add, {ints}, Tensor, Gaussian)
         pl.setup += "m = m.reduce(ops.logaddexp, %s)\n" % _fs(RM)
     var = 'Variable("%s", %s)' % (target, _domain_code("r", tshape))
@@ -830,8 +851,11 @@ def plan_intvar(case, seed):
         measure="gaussian" if L is None else ("mixture:" + "".join(L) + ("/reduced:" + "".join(RM) if RM else "")),
         measure_class="gaussian" if L is None else ("reduced-mixture" if RM else "mixture"),
         measure_reduced_ints=inner,
+        operand_order=order,
+        reduces_shared_int=any(n in L for n in RI) if L is not None else False,
+        reduces_gaussian_only_int=any(n not in L for n in RI) if L is not None else bool(RI),
     )
-    if inner:  # the measure that reaches the Integrate rules is a mixture with its own bound integer inputs
+    if inner or L is not None:  # the measure that reaches the Integrate rules is a mixture with its own bound integer inputs
         pl.site = "Integrate:gaussian-mixture"
     return pl
 
